@@ -63,6 +63,16 @@ Definition chk_calls (i0 : initializer pyv) (ops : list (nat * list pyv * kwargs
   let '(h, rs) := hrun pyv_none [i0] ops in
   list_eqb ores_eqb rs obs_results && list_eqb init_eqb h obs_heap.
 
+(* a history of calls / derived partials on a partial that stores a Generator: observed = the stream position every call
+   drew from (None for a partial application), the final position of the caller's Generator and of the generators stored
+   in every partial *)
+Definition onat_eqb (a b : option nat) : bool :=
+  match a, b with Some x, Some y => x =? y | None, None => true | _, _ => false end.
+Definition chk_gen (ops : list gop) (obs : list (option nat)) (obs_user : nat) (obs_stored : list nat) : bool :=
+  let '(g, rs) := grun true g0 ops in
+  list_eqb onat_eqb rs obs && (nth 0 (g_store g) 0 =? obs_user)
+  && list_eqb Nat.eqb (map (fun a => nth a (g_store g) 0) (g_partials g)) obs_stored.
+
 (* ---------------- Part 2: rescaling ---------------- *)
 Definition eps8 : Q := (1 # 100000000)%Q.       (* mat_gen._epsilon *)
 Definition chk_sr (W0 : list (list Q)) (rho sr : Q) (obs : list (list Q)) : bool :=
